@@ -174,6 +174,10 @@ func Harness_C10_initialize_returns_and_frees_drive() {
 	if vm.Bool("faulty") {
 		vm.FaultBudget = 1
 	}
+	// the tape holds at most 3 + 2 records and as many trailers by the end of this harness: no loop over the tape needs
+	// more than 16 iterations, so running into that bound means a call that does not return
+	vm.SetUnwind(16)
+	vm.UnwindIsViolation("C10.call_returns")
 	_, err := v.FS.Initialize("/", os.ModePerm)
 	vm.Assert("C10.initialize_frees_all_locks", v.Env.LocksFree())
 	vm.FaultBudget = 0
